@@ -17,8 +17,12 @@
 //!
 //! Sections:  G  with / without getters;  R  `chewing_Reset` after a random prefix vs. a context newly
 //! created with the same configuration and user phrases;  P  context A alone vs. beside another
-//! context B (interleaved on one thread, and B running freely on a second thread);  L  the
-//! process-wide logger slot (finding F33).
+//! context B (interleaved on one thread, and B running freely on a second thread);  D  contexts created with
+//! DIFFERENT creation arguments (own system data directory with its own dictionaries / symbols.dat / swkb.dat /
+//! drop-in dictionary, own user path, own initial options) in one process, in both creation orders, interleaved
+//! and on one thread per context, each compared call by call with the SAME context run ALONE in a fresh process
+//! (anything derived from a data directory that is shared by accident — a process-wide cache — shows here);
+//! L  the process-wide logger slot (finding F33).
 use chewing_capi::candidates::*;
 use chewing_capi::globals::*;
 use chewing_capi::input::*;
@@ -883,6 +887,436 @@ fn trace_contexts(w: &mut W, seed: u64, n_ops: usize, threaded: bool, st: &mut S
     }
 }
 
+// ------------------------------------------------------------------ D: different creation arguments
+
+/// the creation arguments of one context: what its system data directory holds, where its user dictionary
+/// lives, and the options set directly after `chewing_new2`
+#[derive(Clone, Debug, PartialEq)]
+struct Profile {
+    /// 0 = tests/data word.dat+tsi.dat, 1 = none (built-in mini dictionary), 2 / 3 = generated dictionaries
+    dict: u8,
+    /// 0 = tests/data symbols.dat, 1 / 2 = other tables, 3 = no file (empty table)
+    symbols: u8,
+    /// 0 = tests/data swkb.dat, 1 = another table, 2 = no file
+    swkb: u8,
+    /// a drop-in dictionary in dictionary.d
+    dropin: bool,
+    /// 0 = `:memory:`, 1 = a new chewing.dat in its own directory, 2 = a copy of tests/data/chewing.dat
+    user: u8,
+    init: Vec<Op>,
+}
+
+const SYMBOLS_1: &str = "★\n箭頭=←→↑↓\n星號=☆※\n";
+const SYMBOLS_2: &str = "括號=（）「」\n〒\n音樂=♩♪♫♬\n幣=＄￥￡\n";
+const SWKB_1: &str = "Q 甲\nW 乙\nA 丙丁\nL Zzz\nM ？！\n";
+
+impl Profile {
+    fn gen(rng: &mut Rng) -> Profile {
+        let mut init = vec![];
+        for _ in 0..rng.below(4) {
+            init.push(match rng.below(7) {
+                0 => Op::Set(2, 1 + rng.below(10) as i32),
+                1 => Op::Set(8, 1),
+                2 => Op::SetKb(*rng.pick(&[0, 0, 1, 2, 3, 5, 8])),
+                3 => Op::Set(5, rng.below(2) as i32),
+                4 => Op::Set(9, rng.below(2) as i32),
+                5 => Op::SetOpt(0, rng.below(3) as i32),
+                _ => Op::Set(3, *rng.pick(&[0, 3, 5, 20])),
+            });
+        }
+        Profile {
+            dict: rng.weighted(&[3, 2, 2, 2]) as u8,
+            symbols: rng.weighted(&[3, 3, 2, 1]) as u8,
+            swkb: rng.weighted(&[3, 3, 1]) as u8,
+            dropin: rng.chance(1, 4),
+            user: rng.weighted(&[3, 1, 1]) as u8,
+            init,
+        }
+    }
+    fn text(&self) -> String {
+        format!(
+            "{{dictionaries:{} symbols.dat:{} swkb.dat:{} drop-in:{} user:{} options:[{}]}}",
+            ["tests/data", "none(built-in)", "generated-1", "generated-2"][self.dict as usize],
+            ["tests/data", "table-1(★ 箭頭 星號)", "table-2(括號 〒 音樂 幣)", "absent"][self.symbols as usize],
+            ["tests/data", "table-1(Q甲 W乙 A丙丁 L M)", "absent"][self.swkb as usize],
+            self.dropin,
+            [":memory:", "new chewing.dat", "copy of tests/data/chewing.dat"][self.user as usize],
+            self.init.iter().map(|o| o.text()).collect::<Vec<_>>().join(",")
+        )
+    }
+}
+
+fn write_trie(path: &std::path::Path, entries: &[(&str, &str, u32)]) {
+    use chewing::dictionary::{DictionaryBuilder, Phrase, TrieBuilder};
+    use chewing::zhuyin::Syllable;
+    let mut b = TrieBuilder::new();
+    for (phrase, bopomofo, freq) in entries {
+        let syls: Vec<Syllable> = bopomofo.split(' ').map(|s| s.parse().unwrap()).collect();
+        b.insert(&syls, Phrase::new(*phrase, *freq)).unwrap();
+    }
+    let mut buf = vec![];
+    b.write(&mut buf).unwrap();
+    std::fs::write(path, buf).unwrap();
+}
+
+/// materialise the directories of a profile (the same bytes in every process)
+fn profile_home(p: &Profile) -> Home {
+    let dir = tempfile::tempdir().unwrap();
+    let repo = std::env::var("VERIF_REPO").unwrap_or_else(|_| "/repo".into());
+    let data = std::path::PathBuf::from(format!("{}/tests/data", repo));
+    let sys = dir.path().join("sys");
+    let usr = dir.path().join("user");
+    std::fs::create_dir_all(&sys).unwrap();
+    std::fs::create_dir_all(&usr).unwrap();
+    match p.dict {
+        0 => {
+            std::fs::copy(data.join("word.dat"), sys.join("word.dat")).unwrap();
+            std::fs::copy(data.join("tsi.dat"), sys.join("tsi.dat")).unwrap();
+        }
+        1 => {}
+        2 => {
+            write_trie(&sys.join("word.dat"), &[("冊", "ㄘㄜˋ", 900), ("廁", "ㄘㄜˋ", 800), ("是", "ㄕˋ", 1000), ("市", "ㄕˋ", 900), ("你", "ㄋㄧˇ", 500), ("好", "ㄏㄠˇ", 500), ("我", "ㄨㄛˇ", 700)]);
+            write_trie(&sys.join("tsi.dat"), &[("側室", "ㄘㄜˋ ㄕˋ", 500), ("你好", "ㄋㄧˇ ㄏㄠˇ", 900), ("是是", "ㄕˋ ㄕˋ", 3)]);
+        }
+        _ => {
+            write_trie(&sys.join("word.dat"), &[("側", "ㄘㄜˋ", 1000), ("測", "ㄘㄜˋ", 10), ("事", "ㄕˋ", 1000), ("試", "ㄕˋ", 5), ("擬", "ㄋㄧˇ", 1), ("郝", "ㄏㄠˇ", 1)]);
+            write_trie(&sys.join("tsi.dat"), &[("策士", "ㄘㄜˋ ㄕˋ", 9000), ("測試", "ㄘㄜˋ ㄕˋ", 100), ("事事側", "ㄕˋ ㄕˋ ㄘㄜˋ", 70)]);
+        }
+    }
+    match p.symbols {
+        0 => drop(std::fs::copy(data.join("symbols.dat"), sys.join("symbols.dat")).unwrap()),
+        1 => std::fs::write(sys.join("symbols.dat"), SYMBOLS_1).unwrap(),
+        2 => std::fs::write(sys.join("symbols.dat"), SYMBOLS_2).unwrap(),
+        _ => {}
+    }
+    match p.swkb {
+        0 => drop(std::fs::copy(data.join("swkb.dat"), sys.join("swkb.dat")).unwrap()),
+        1 => std::fs::write(sys.join("swkb.dat"), SWKB_1).unwrap(),
+        _ => {}
+    }
+    if p.dropin {
+        std::fs::create_dir_all(sys.join("dictionary.d")).unwrap();
+        write_trie(&sys.join("dictionary.d").join("01-extra.dat"), &[("廁試", "ㄘㄜˋ ㄕˋ", 20000), ("溼", "ㄕˋ", 30000)]);
+    }
+    let user = match p.user {
+        0 => usr.join(":memory:"),
+        1 => usr.join("chewing.dat"),
+        _ => {
+            std::fs::copy(data.join("chewing.dat"), usr.join("chewing.dat")).unwrap();
+            usr.join("chewing.dat")
+        }
+    };
+    Home { sys: CString::new(sys.display().to_string()).unwrap(), user: CString::new(user.display().to_string()).unwrap(), _dir: dir }
+}
+
+/// the profiles of trace `seed` (at least two differ in something the data directory decides)
+fn trace_profiles(seed: u64) -> Vec<Profile> {
+    let mut rng = Rng::new(seed ^ 0xD1FF);
+    let k = 2 + rng.below(2) as usize;
+    loop {
+        let ps: Vec<Profile> = (0..k).map(|_| Profile::gen(&mut rng)).collect();
+        if ps.iter().any(|p| (p.dict, p.symbols, p.swkb, p.dropin) != (ps[0].dict, ps[0].symbols, ps[0].swkb, ps[0].dropin)) {
+            return ps;
+        }
+    }
+}
+
+/// one context of section D with its own generator; every call goes to `log`
+struct Actor {
+    ctx: Ctx,
+    _home: Home,
+    rng: Rng,
+    sel: bool,
+    log: Vec<String>,
+    left: usize,
+}
+unsafe impl Send for Actor {}
+
+impl Actor {
+    fn new(p: &Profile, seed: u64, n_ops: usize) -> Actor {
+        let h = profile_home(p);
+        let ctx = new_ctx(&h);
+        let mut log = vec![format!("new2 -> {}", if ctx.is_null() { "NULL" } else { "ctx" })];
+        for o in &p.init {
+            let rc = unsafe { apply(ctx, o) };
+            log.push(format!("{} -> {}", o.text(), rc));
+        }
+        log.push(format!("OBSERVE {}", unsafe { observe(ctx) }));
+        Actor { ctx, _home: h, rng: Rng::new(seed), sel: false, log, left: n_ops }
+    }
+    /// one batch of operations; the probes open the symbol table / use easy-symbol input and observe at once
+    fn step(&mut self) {
+        self.left -= 1;
+        let mut dummy = [0u64; 4];
+        let mut force = false;
+        let ops: Vec<Op> = match self.rng.below(8) {
+            0 if !self.sel => {
+                force = true;
+                vec![Op::Default(b'`')]
+            }
+            1 if self.sel => {
+                // into a category / take a symbol
+                force = true;
+                vec![Op::CandChoose(self.rng.below(4) as i32)]
+            }
+            2 if !self.sel => {
+                force = true;
+                vec![Op::Set(8, 1), Op::Default(*self.rng.pick(b"QWALMZXT")), Op::Set(8, self.rng.below(2) as i32)]
+            }
+            3 if !self.sel => {
+                force = true;
+                vec![Op::CtrlNum(*self.rng.pick(b"01"))]
+            }
+            _ => gen_ops(&mut self.rng, self.sel, true, true),
+        };
+        for op in ops {
+            if self.rng.chance(1, 4) {
+                let q = unsafe { any_query(self.ctx, &mut self.rng, &mut dummy) };
+                self.log.push(format!("? {}", q));
+            }
+            let rc = unsafe { apply(self.ctx, &op) };
+            self.log.push(format!("{} -> {}", op.text(), rc));
+        }
+        if force || self.rng.chance(1, 4) || self.left == 0 {
+            self.log.push(format!("OBSERVE {}", unsafe { observe(self.ctx) }));
+        }
+        self.sel = selecting(self.ctx);
+    }
+    fn finish(self) -> Vec<String> {
+        unsafe { chewing_delete(self.ctx) };
+        self.log
+    }
+}
+
+const D_OPS: usize = 24;
+
+fn actor_seed(seed: u64, i: usize) -> u64 {
+    seed.wrapping_mul(31).wrapping_add(0xAC7 + i as u64)
+}
+
+/// child process of section D: `alone <i>` | `inter <order>` | `thread <order>`; prints `@L <i> <line>`
+fn actor_main(seed: u64, mode: &str, arg: usize) {
+    let ps = trace_profiles(seed);
+    let k = ps.len();
+    let order: Vec<usize> = if arg == 0 { (0..k).collect() } else { (0..k).rev().collect() };
+    let mut logs: Vec<(usize, Vec<String>)> = vec![];
+    match mode {
+        "alone" => {
+            let mut a = Actor::new(&ps[arg], actor_seed(seed, arg), D_OPS);
+            while a.left > 0 {
+                a.step();
+            }
+            logs.push((arg, a.finish()));
+        }
+        "inter" => {
+            let mut actors: Vec<(usize, Actor)> = order.iter().map(|i| (*i, Actor::new(&ps[*i], actor_seed(seed, *i), D_OPS))).collect();
+            let mut sched = Rng::new(seed ^ 0x5C4ED);
+            loop {
+                let live: Vec<usize> = (0..actors.len()).filter(|j| actors[*j].1.left > 0).collect();
+                if live.is_empty() {
+                    break;
+                }
+                let j = *sched.pick(&live);
+                actors[j].1.step();
+            }
+            // deleted in creation order or its reverse
+            if sched.chance(1, 2) {
+                actors.reverse();
+            }
+            for (i, a) in actors {
+                logs.push((i, a.finish()));
+            }
+        }
+        _ => {
+            // one thread per context; every other trace the contexts are also CREATED on their threads
+            let create_inside = seed % 2 == 1;
+            let mut handles = vec![];
+            if create_inside {
+                for i in order {
+                    let p = ps[i].clone();
+                    handles.push(std::thread::spawn(move || {
+                        let mut a = Actor::new(&p, actor_seed(seed, i), D_OPS);
+                        while a.left > 0 {
+                            a.step();
+                        }
+                        (i, a.finish())
+                    }));
+                }
+            } else {
+                let actors: Vec<(usize, Actor)> = order.iter().map(|i| (*i, Actor::new(&ps[*i], actor_seed(seed, *i), D_OPS))).collect();
+                for (i, mut a) in actors {
+                    handles.push(std::thread::spawn(move || {
+                        while a.left > 0 {
+                            a.step();
+                        }
+                        (i, a.finish())
+                    }));
+                }
+            }
+            for h in handles {
+                if let Ok(r) = h.join() {
+                    logs.push(r);
+                }
+            }
+        }
+    }
+    let stdout = std::io::stdout();
+    let mut out = stdout.lock();
+    for (i, log) in logs {
+        for l in log {
+            writeln!(out, "@L {} {}", i, l).unwrap();
+        }
+        writeln!(out, "@END {}", i).unwrap();
+    }
+    out.flush().unwrap();
+}
+
+/// run one child of section D; `None` = the child died (abort inside the C API)
+fn run_actor(seed: u64, mode: &str, arg: usize, k: usize) -> Option<Vec<Vec<String>>> {
+    let exe = std::env::current_exe().unwrap();
+    let o = Command::new(&exe)
+        .args(["--actor", &seed.to_string(), mode, &arg.to_string()])
+        .stdout(Stdio::piped())
+        .stderr(Stdio::null())
+        .output()
+        .ok()?;
+    let mut logs = vec![vec![]; k];
+    let mut ended = vec![false; k];
+    for line in String::from_utf8_lossy(&o.stdout).lines() {
+        if let Some(r) = line.strip_prefix("@L ") {
+            if let Some((i, l)) = r.split_once(' ') {
+                if let Ok(i) = i.parse::<usize>() {
+                    if i < k {
+                        logs[i].push(l.to_string());
+                    }
+                }
+            }
+        } else if let Some(r) = line.strip_prefix("@END ") {
+            if let Ok(i) = r.trim().parse::<usize>() {
+                if i < k {
+                    ended[i] = true;
+                }
+            }
+        }
+    }
+    if !o.status.success() || ended.iter().enumerate().any(|(i, e)| !*e && (mode != "alone" || i == arg)) {
+        return None;
+    }
+    Some(logs)
+}
+
+#[derive(Default)]
+struct DStats {
+    traces: u64,
+    contexts: u64,
+    pairs: u64,
+    pairs_sym: u64,
+    pairs_swkb: u64,
+    pairs_dict: u64,
+    pairs_user: u64,
+    pairs_opts: u64,
+    together_runs: u64,
+    threaded_runs: u64,
+    created_on_threads: u64,
+    calls_compared: u64,
+    observations_compared: u64,
+    symbol_menus_observed: u64,
+    alone_aborts: u64,
+    together_aborts: u64,
+}
+
+/// D: every context of a process that holds contexts with different creation arguments behaves as it does alone
+fn trace_creation_args(w: &mut W, seed: u64, t: u64, st: &mut DStats) {
+    let ps = trace_profiles(seed);
+    let k = ps.len();
+    st.traces += 1;
+    st.contexts += k as u64;
+    for i in 0..k {
+        for j in i + 1..k {
+            st.pairs += 1;
+            st.pairs_sym += (ps[i].symbols != ps[j].symbols) as u64;
+            st.pairs_swkb += (ps[i].swkb != ps[j].swkb) as u64;
+            st.pairs_dict += ((ps[i].dict, ps[i].dropin) != (ps[j].dict, ps[j].dropin)) as u64;
+            st.pairs_user += (ps[i].user != ps[j].user) as u64;
+            st.pairs_opts += (ps[i].init != ps[j].init) as u64;
+        }
+    }
+    let mut alone: Vec<Vec<String>> = vec![];
+    for i in 0..k {
+        match run_actor(seed, "alone", i, k) {
+            Some(mut l) => alone.push(std::mem::take(&mut l[i])),
+            None => {
+                // crashes are C01's subject
+                st.alone_aborts += 1;
+                return;
+            }
+        }
+    }
+    st.symbol_menus_observed += alone.iter().flatten().filter(|l| l.starts_with("Default('`') ->") || l.starts_with("CtrlNum(")).count() as u64;
+    let desc = |order: usize| -> String {
+        let idx: Vec<usize> = if order == 0 { (0..k).collect() } else { (0..k).rev().collect() };
+        idx.iter().map(|i| format!("ctx{}=new2{}", i, ps[*i].text())).collect::<Vec<_>>().join(" ; ")
+    };
+    // both creation orders; which of the two runs is threaded alternates
+    for (mode, order) in if t % 2 == 0 { [("inter", 0usize), ("thread", 1usize)] } else { [("thread", 0usize), ("inter", 1usize)] } {
+        st.together_runs += 1;
+        if mode == "thread" {
+            st.threaded_runs += 1;
+            st.created_on_threads += (seed % 2 == 1) as u64;
+        }
+        let how = if mode == "inter" { "interleaved on one thread".to_string() } else { format!("one thread per context{}", if seed % 2 == 1 { ", created on their threads" } else { "" }) };
+        match run_actor(seed, mode, order, k) {
+            None => {
+                st.together_aborts += 1;
+                w.out.oracle_fail("C17", "new", &format!(
+                    "capi creation arguments: every context runs to the end ALONE in a fresh process, the process holding all of them ({}) dies ; trace-seed {} created in this order [{}]",
+                    how, seed, desc(order)));
+                return;
+            }
+            Some(tog) => {
+                for i in 0..k {
+                    let (a, b) = (&alone[i], &tog[i]);
+                    st.calls_compared += a.len().min(b.len()) as u64;
+                    st.observations_compared += a.iter().filter(|l| l.starts_with("OBSERVE")).count() as u64;
+                    let n = a.iter().zip(b.iter()).position(|(x, y)| x != y).or(if a.len() != b.len() { Some(a.len().min(b.len())) } else { None });
+                    if let Some(n) = n {
+                        let (x, y) = (a.get(n).map(|s| s.as_str()).unwrap_or("(end)"), b.get(n).map(|s| s.as_str()).unwrap_or("(end)"));
+                        let d = if x.starts_with("OBSERVE") && y.starts_with("OBSERVE") { format!("observation: alone/together {}", first_diff(x, y)) } else { format!("alone [{}] together [{}]", &x[..x.len().min(300)], &y[..y.len().min(300)]) };
+                        let calls: Vec<&str> = a[..n].iter().filter(|l| !l.starts_with("OBSERVE") && !l.starts_with("? ")).map(|l| l.split(" -> ").next().unwrap_or("")).collect();
+                        w.out.oracle_fail("C17", "new", &format!(
+                            "capi creation arguments: ctx{} behaves differently beside contexts created with other arguments ({}) than ALONE in a fresh process: call #{} {} ; trace-seed {} created in this order [{}] ; calls of ctx{} so far [{}]",
+                            i, how, n, d, seed, desc(order), i, calls.join(" ; ")));
+                        return;
+                    }
+                }
+            }
+        }
+    }
+}
+
+fn worker_d(from: u64, to: u64) {
+    let mut w = W { out: Out::new() };
+    let seed = seed_from_env();
+    let mut st = DStats::default();
+    for t in from..to {
+        let s = (seed.wrapping_mul(9_000_011).wrapping_add(t)) ^ 0x9000;
+        println!("@trace {}", t);
+        trace_creation_args(&mut w, s, t, &mut st);
+        w.out.flush();
+        println!(
+            "@cum D.traces={} D.contexts={} D.context_pairs={} D.pairs_with_different_symbols_dat={} D.pairs_with_different_swkb_dat={} D.pairs_with_different_dictionaries={} D.pairs_with_different_user_path_kind={} D.pairs_with_different_initial_options={} D.together_runs={} D.together_runs_one_thread_per_context={} D.runs_with_contexts_created_on_their_threads={} D.calls_compared_with_the_alone_run={} D.observations_compared={} D.symbol_table_openings_in_alone_runs={} D.alone_run_aborts={} D.together_run_aborts={}",
+            st.traces, st.contexts, st.pairs, st.pairs_sym, st.pairs_swkb, st.pairs_dict, st.pairs_user, st.pairs_opts, st.together_runs, st.threaded_runs,
+            st.created_on_threads, st.calls_compared, st.observations_compared, st.symbol_menus_observed, st.alone_aborts, st.together_aborts
+        );
+    }
+    if from == 0 {
+        for p in trace_profiles((seed.wrapping_mul(9_000_011)) ^ 0x9000) {
+            w.out.sample(&format!("D profile {}", p.text()));
+        }
+    }
+    w.out.flush();
+}
+
 // ------------------------------------------------------------------ L: the logger slot (F33)
 
 static ANOMALIES: AtomicU64 = AtomicU64::new(0);
@@ -1011,6 +1445,11 @@ fn worker(section: &str, from: u64, to: u64) {
         w.out.flush();
         return;
     }
+    if section == "D" {
+        drop(w);
+        worker_d(from, to);
+        return;
+    }
     for t in from..to {
         let s = seed.wrapping_mul(9_000_011).wrapping_add(t);
         println!("@trace {}", t);
@@ -1027,6 +1466,10 @@ fn worker(section: &str, from: u64, to: u64) {
 
 fn main() {
     let args: Vec<String> = std::env::args().collect();
+    if args.len() >= 5 && args[1] == "--actor" {
+        actor_main(args[2].parse().unwrap(), &args[3], args[4].parse().unwrap());
+        return;
+    }
     if args.len() >= 5 && args[1] == "--worker" {
         worker(&args[2], args[3].parse().unwrap(), args[4].parse().unwrap());
         return;
@@ -1036,8 +1479,17 @@ fn main() {
     let stdout = std::io::stdout();
     let mut out = stdout.lock();
     let mut stats: std::collections::BTreeMap<String, u64> = Default::default();
-    for section in ["G", "R", "P", "L"] {
-        let total = if section == "L" { 1 } else { n };
+    let only: Option<String> = std::env::var("C17_SECTIONS").ok();
+    for section in ["G", "R", "P", "D", "L"] {
+        if only.as_ref().is_some_and(|o| !o.contains(section)) {
+            continue;
+        }
+        let total = match section {
+            "L" => 1,
+            // every trace of D is 4-5 fresh processes
+            "D" => if tier_is_thorough() { 1500 } else { 150 },
+            _ => n,
+        };
         let mut from = 0u64;
         let mut aborts = 0u64;
         while from < total {
